@@ -63,7 +63,8 @@ SCHEDULES = [
 BASE = {"photon": "f64", "charge": "array", "pixel": "f64", "signal": "f64", "image": "u16", "scene": "no",
         "data": "none", "debug": "off", "alias": "no", "flags": "no"}
 AXES = {
-    "photon": ["none", "f64", "f32", "f16", "wl2", "wl3", "wl2xy"],   # wl2xy: the cube carries its own y / x coordinates
+    # wl2xy: the cube carries its own y / x coordinates; wl2shift: the wavelength grid moves from step to step
+    "photon": ["none", "f64", "f32", "f16", "wl2", "wl3", "wl2xy", "wl2shift"],
     "charge": ["none", "array", "clusters"],
     "pixel": ["none", "f64", "f32", "f16"],
     "signal": ["none", "f64", "f32", "f16"],
@@ -82,7 +83,7 @@ GROUP_OF = {**IDLE, "m_charge2": "charge_generation", "m_charge_scale": "charge_
             "m_scene": "scene_generation", "m_photon": "photon_collection", "noop": "phasing",
             "m_charge": "charge_generation", "m_pixel": "charge_collection", "m_pixel_x2": "charge_transfer",
             "m_signal": "charge_measurement", "m_signal_same": "signal_transfer", "m_image": "readout_electronics",
-            "m_flags": "phasing", "m_signal_cast": "signal_transfer", "m_image_cast": "readout_electronics", "m_pixel_zero": "charge_transfer",
+            "m_flags": "phasing", "m_photon_x2": "photon_collection", "m_signal_cast": "signal_transfer", "m_image_cast": "readout_electronics", "m_pixel_zero": "charge_transfer",
             "m_data": "data_processing", "last": "data_processing"}
 
 
@@ -104,7 +105,8 @@ def enumerate_cases(tier, seed):
         # the deviation pairs that matter most for the merge / debug code, already in the quick tier
         for extra in ({"image": "u64big", "debug": "on"}, {"photon": "wl2", "scene": "yes"},
                       {"photon": "wl3", "scene": "yes"}, {"charge": "clusters", "debug": "const"},
-                      {"image": "u64", "pixel": "f16"}, {"scene": "yes", "data": "nested"}):
+                      {"image": "u64", "pixel": "f16"}, {"scene": "yes", "data": "nested"},
+                      {"photon": "wl2", "debug": "on"}, {"photon": "wl3", "debug": "const"}):
             cfg = dict(BASE, **extra)
             for si in range(len(SCHEDULES)):
                 for nd in (False, True):
@@ -134,7 +136,7 @@ def _single_bucket_cfgs(empty):
 
 def expected_size(tier, seed):
     k = 3 if tier == "thorough" else 1
-    n_p = cfgx.n_k_deviations(BASE, AXES, k) + (0 if tier == "thorough" else 6)
+    n_p = cfgx.n_k_deviations(BASE, AXES, k) + (0 if tier == "thorough" else 8)
     n_t = 3 * 3 + 3 + 3 + 4 * 2 + 1
     return (n_p + n_t) * len(SCHEDULES) * 2
 
@@ -151,7 +153,8 @@ def _photon_spec(v, const):
         opt["dtype"] = FLOATS[v]
     elif v.startswith("wl"):
         opt["xy"] = v.endswith("xy")
-        opt["wl"] = int(v[2:].replace("xy", ""))
+        opt["shift"] = v.endswith("shift")
+        opt["wl"] = int(v[2:].replace("xy", "").replace("shift", ""))
         opt["dtype"] = "float64"
     else:
         opt["dtype"] = FLOATS[v]
@@ -195,6 +198,8 @@ def build_pipeline(cfg, salt, track=False):
     if ph is not None:
         add("photon_collection", "m_photon", {"photon": ph})
         idle("photon_collection", "m_photon_idle")
+        if debug and ph.get("wl"):
+            add("photon_collection", "m_photon_x2", {"photon": {"inplace3d": True}})
     if debug:
         g.setdefault("phasing", []).append(("vp.exp_util.tick", "noop", {}))
     if cfg["charge"] != "none":
@@ -352,13 +357,19 @@ def check_record(res, snaps, sched, cfg, layout, bad, salt=0):
                     f"{var[dim].values.tolist() if dim in var.coords else None}, expected {list(range(size))}",
                     bucket=b, layout=layout, dim=dim)
         if is3d:
-            wl_want = [float(x) for x in vals[0]["wavelength"].values]
+            # (a model may use another wavelength grid in every step: the result's axis is the union of the grids and each
+            # slice holds its step's cube at that step's own wavelengths)
+            wl_want = sorted({float(x) for v_ in vals for x in v_["wavelength"].values})
             wl_got = [float(x) for x in var["wavelength"].values] if "wavelength" in var.coords else None
-            if wl_got != wl_want:
+            if wl_got is None or sorted(wl_got) != wl_want:
                 bad("coords", f"[{layout}] {b}: wavelength coordinate {wl_got}, expected {wl_want}", bucket=b,
                     layout=layout, dim="wavelength")
+                continue
         for i in range(n):
-            sl = var.isel(time=i).transpose(*want_dims).values
+            if is3d:
+                sl = var.isel(time=i).sel(wavelength=vals[i]["wavelength"].values).transpose(*want_dims).values
+            else:
+                sl = var.isel(time=i).transpose(*want_dims).values
             sv = vals[i].transpose(*want_dims).values if is3d else vals[i]
             compared += 1
             if not exact_equal(sl, sv):
